@@ -551,17 +551,27 @@ pub fn run(cfg: &Cfg) -> i32 {
     let mut ev = Evidence::new("C06", cfg);
     let quick = cfg.quick();
     let max_nest = 3; // includes the boot-level empty input
-    let n_inputs = make_inputs(quick).len();
+    // every input is explored with reverse recording off and on (the parsing words log their
+    // variable stores when recording; what they read must not depend on it)
+    let n_inputs = make_inputs(quick).len() * 2;
     let cap_states: usize = if quick { 20_000 } else { 400_000 };
     let results = std::sync::Mutex::new((0u64, 0u64, BTreeMap::<String, u64>::new(), Vec::<J>::new(), Vec::<String>::new()));
     par_run(cfg.threads.min(n_inputs), n_inputs, 1, |_t, pull| {
         let inputs = make_inputs(quick);
         while let Some(r) = pull() {
-            for ii in r {
+            for ii2 in r {
+                let (ii, recording) = (ii2 / 2, ii2 % 2 == 1);
                 let (iname, ibs) = &inputs[ii];
+                // the recording pass costs a copy of the growing reverse log per state: small inputs only
+                if recording && (iname.starts_with("wide") || (quick && !["19 bits", "3 equal bytes", "empty"].contains(iname))) {
+                    continue;
+                }
+                let iname_s = format!("{}{}", iname, if recording { " (reverse recording on)" } else { "" });
+                let iname = &iname_s.as_str();
                 let max_nest = if iname.starts_with("wide") { 2 } else { max_nest };
                 let mut xs0 = boot();
                 let _ = xs0.set_insn_limit(Some(100_000));
+                xs0.set_recording_enabled(recording);
                 xs0.eval(SENTINEL).unwrap();
                 xs0.set_binary_input(ibs.clone()).unwrap();
                 let m0 = Model { levels: vec![Level { bits: vec![], rel: 0, base: 0 }, Level { bits: ibs.bits().collect(), rel: 0, base: ibs.start() }], big: false };
